@@ -7,6 +7,39 @@ NT_VAR = {'t1': {}, 't2': {}, 't3': {'k': 7.0}, 't4': {'x': 15.0}}
 CIRC_NODES = {'c1': [('a', 't1'), ('b', 't1'), ('c', 't4')], 'c2': [('a', 't2')], 'c3': [('a', 't3'), ('b', 't1')]}
 CIRC_EDGES = {'c1': [(1, 2, 4.0), (3, 1, 6.0)], 'c2': [], 'c3': [(1, 2, 8.0)]}
 VAR = {'k': 'k', 'x0': 'x'}
+# the circuit "cy" of Api.tla lives in a YAML file (operator Y: x' = -2*k*x + u, k = 4, x(0) = 50)
+OPS['o4'] = dict(name='Y', eqv=2, k=4, x0=50)
+NT_OP['t5'] = 'o4'
+CIRC_NODES['cy'] = [('a', 't5')]
+CIRC_EDGES['cy'] = []
+CY_YAML = """
+Y:
+  base: OperatorTemplate
+  equations: "x' = -2*k*x + u"
+  variables:
+    x: output(50.0)
+    k: 4.0
+    u: input(0.0)
+t5:
+  base: NodeTemplate
+  operators:
+    - Y
+cy:
+  base: CircuitTemplate
+  nodes:
+    a: t5
+"""
+
+
+def unneg(obs):
+    return sorted((x0, -d + 0.0, tuple(sorted((sx0, -sd + 0.0, -w + 0.0) for sx0, sd, w in inw)), -cst + 0.0) for x0, d, inw, cst in obs)
+
+
+def negate(func):
+    """the user decorator of Compile(dec = TRUE): the decorated vector field is the negated one"""
+    def wrapped(*a, **k):
+        return -func(*a, **k)
+    return wrapped
 
 
 class Universe:
@@ -15,15 +48,25 @@ class Universe:
         warnings.filterwarnings('ignore')
         self.ops = {}
         for oid, o in OPS.items():
+            if oid == 'o4':
+                continue            # defined in the YAML file only
             eq = "x' = -k*x + u" if o['eqv'] == 1 else "x' = -2*k*x + u"
             self.ops[oid] = OperatorTemplate(o['name'], equations=[eq],
                                              variables={'x': f"output({float(o['x0'])})", 'k': float(o['k']), 'u': 'input(0.0)'})
         self.nts = {}
         for t, oid in NT_OP.items():
+            if t == 't5':
+                continue
             v = NT_VAR[t]
             self.nts[t] = NodeTemplate(t, operators={self.ops[oid]: dict(v)} if v else [self.ops[oid]])
         self.circs = {}
+        import os
+        os.makedirs('ymodels', exist_ok=True)
+        with open('ymodels/cyfile.yaml', 'w') as f:
+            f.write(CY_YAML)
         for c, nodes in CIRC_NODES.items():
+            if c == 'cy':
+                continue
             nd = {n: self.nts[t] for n, t in nodes}
             ed = []
             for s, t, w in CIRC_EDGES[c]:
@@ -71,11 +114,15 @@ class Universe:
             if a == 'compile_nv':
                 i = call['node']
                 kw['node_values'] = {f"{CIRC_NODES[call['c']][i - 1][0]}/{self.opname(call['c'], i)}/{VAR[call['var']]}": float(call['val'])}
+            if call.get('dec'):
+                kw['decorator'] = negate
             func, args, names, svm = c.get_run_func('vf', 1e-3, vectorize=call['vec'], clear=call['clr'], in_place=False,
                                                     verbose=False, float_precision='float64', **kw)
             obs = self.observe(func, args)
+            if call.get('dec'):      # report the field of the model itself: undo the user's negation
+                obs = unneg(obs)
             if not call['clr'] and len(self.handles) < 2:
-                self.handles.append((func, args, obs))
+                self.handles.append((func, args, bool(call.get('dec'))))
             return obs
         if a == 'update_var':
             cid = call['c']
@@ -110,9 +157,16 @@ class Universe:
         if a == 'clear_frontend_caches':
             from pyrates import clear_frontend_caches
             clear_frontend_caches(); return None
+        if a == 'from_yaml':
+            from pyrates import CircuitTemplate
+            self.circs['cy'] = CircuitTemplate.from_yaml('ymodels/cyfile/cy')
+            return None
+        if a == 'clear_model':
+            from pyrates import clear
+            clear(c); return None
         if a == 'call_earlier':
-            func, args, obs0 = self.handles[call['node'] - 1]
-            return self.observe(func, args)
+            func, args, dec = self.handles[call['node'] - 1]
+            return unneg(self.observe(func, args)) if dec else self.observe(func, args)
         raise ValueError(a)
 
 
